@@ -7,7 +7,8 @@ ROOT = os.path.dirname(os.path.dirname(os.path.abspath(__file__)))
 sys.path.insert(0, os.path.join(ROOT, "tests"))
 from mutant_list import MUTANTS  # {ID: [(name, relpath, old, new), ...]}
 
-def run(pid, name, rel, old, new, baseline=False):
+def run(pid, name, rel, old=None, new=None, baseline=False):
+    edits = rel if isinstance(rel, list) else [(rel, old, new)]
     d = tempfile.mkdtemp(prefix="prov-mut-")
     try:
         shutil.copytree("/repo/src", os.path.join(d, "src"), ignore=shutil.ignore_patterns("__pycache__"))
@@ -15,11 +16,12 @@ def run(pid, name, rel, old, new, baseline=False):
             p = os.path.join("/repo", extra)
             if os.path.isdir(p): shutil.copytree(p, os.path.join(d, extra))
             elif os.path.exists(p): shutil.copy(p, d)
-        path = os.path.join(d, "src", rel)
-        s = open(path).read()
-        if s.count(old) < 1:
-            return name, "STALE(old text not found)", 0
-        open(path, "w").write(s.replace(old, new, 1))
+        for rel, old, new in edits:
+            path = os.path.join(d, "src", rel)
+            s = open(path).read()
+            if s.count(old) < 1:
+                return name, "STALE(old text not found)", 0
+            open(path, "w").write(s.replace(old, new, 1))
         env = dict(os.environ, PROV_SRC=os.path.join(d, "src"))
         t0 = time.time()
         p = subprocess.run([os.path.join(ROOT, "check"), pid, "quick"], env=env, capture_output=True, text=True, cwd=ROOT)
